@@ -1128,6 +1128,14 @@ async def async_fifo_stream(
                     try:
                         xx = preprocessor(x)
                     except Exception as e:
+                        if isinstance(e, StopIteration):
+                            # An `asyncio.Future` refuses to carry `StopIteration` (`set_exception`
+                            # raises `TypeError`, which would end the whole stream); this element
+                            # fails like any other rejected one.
+                            try:
+                                raise RuntimeError('preprocessor raised StopIteration') from e
+                            except RuntimeError as ee:
+                                e = ee
                         t = asyncio.Future()
                         t.set_exception(e)
                     else:
